@@ -118,6 +118,7 @@ func checkC01(c *Check) {
 	importRules(c, "C02", c02WheelCallback, map[string]bool{"R10": true}, "R11")
 	c.Rule("R12", "the record written to the spool differs from the live one in nothing but the stripped connection state: SMTPUTF8 and the other envelope options are there for the attempts that read the record back (a report for an internationalized recipient needs them) (C10.R1c)", 1)
 	importRules(c, "C10", checkC10, map[string]bool{"R1c": true}, "R12")
+	c02AttemptEndsRemovedOrScheduled(c, "R15")
 	c.Rule("R13", "a target that fans the body out over several connections or targets reports each part's outcome for that part's recipients only: a recipient whose server accepted the message is never marked failed by another connection's failure (it would be retried – a duplicate) (C09.K11)", 1)
 	importRules(c, "C09", c09PerPartStatus, map[string]bool{"K11": true}, "R13")
 	c.Rule("R14", "a permanent answer of the next hop is not turned into a temporary one: smtpconn rewrites 552 to 452 for RCPT only (C16.R9)", 0)
